@@ -315,6 +315,23 @@ def one(ctx, tcase, k, x=None, tag=None):
     dec = InstanceDecoder(sp)
     base_dim = 2 * (sp.n_items - sp.min_bins)
     dim = base_dim + 2 * k
+    # the decoder's own statement of an admissible length (what the bundled
+    # Problem class uses): two values per split plus two per slack cut
+    for slack in (0, 0.0, float(rng.choice([0.1, 0.5, 1.0, 2.5])),
+                  int(rng.integers(1, 4))):
+        d = dec.get_x_dim(slack)
+        ctx.count("get_x_dim_calls")
+        if type(d) is not int or d < base_dim or d % 2 or (
+                slack == 0 and d != base_dim) or d != 2 * (
+                base_dim // 2 + int(slack * (base_dim // 2) + 0.5)):
+            ctx.violation("get-x-dim-not-admissible",
+                          f"get_x_dim({slack!r}) = {d!r} for {base_dim // 2} "
+                          f"splits", {"kind": "vector", "template": tcase,
+                                      "k": k, "x": None, "tag": "xdim"})
+            break
+    if x is None and rng.integers(4) == 0:
+        dim = dec.get_x_dim(float(rng.choice([0.0, 0.2, 0.5])))
+        k = (dim - base_dim) // 2
     if x is None:
         x, tag = gen_vector(rng, dim, base_dim)
     else:
